@@ -67,7 +67,17 @@ def run(ctx):
                         srcs.add(norm(a))
     uses_time = any(isinstance(c, ast.Call) and norm(c.func) == "self.time_fn" for c in ast.walk(has.node))
     extra = srcs - SEED_INPUTS
-    if seeds and uses_time and not extra:
+    hcfg = ctx.facts.cfg(has)
+    seed_nodes = {n.id for n in hcfg.live_nodes() if any(norm(c.func) == "self.random_generator.seed" for c in calls_in(n))}
+    skips = any(r is hcfg.exit for r in hcfg.reachable_from([hcfg.entry], stop=lambda n: n.id in seed_nodes, labels={"n", "t", "f"}))
+    memo = [norm(a) for a in ast.walk(has.node) if isinstance(a, ast.Call) and norm(a.func) == "getattr" and a.args and norm(a.args[0]) == "self"]
+    if skips or memo:
+        ctx.fail("R19.a", has, has.node, "_hash_and_seed does not reseed on every call (%s): a second draw at an unchanged time continues the stream instead of restarting it, "
+                                         "so the value at time t depends on how many values were drawn before" % (
+                                             "a path returns without seeding" if skips else "reads remembered state %s" % memo[0]),
+                 key=has.qualname + "::conditional-reseed",
+                 input="call the same generator twice at the same time (push/jump/read/pop/read, or a generator shared by two instances)")
+    elif seeds and uses_time and not extra:
         ctx.ok("R19.a", has, has.node, "seed = hash(%s) only" % ", ".join(sorted(srcs)))
     else:
         ctx.fail("R19.a", has, has.node, "_hash_and_seed %s" % ("reads history-carrying state: %s" % sorted(extra) if extra else "does not seed the generator from the hash of the current time"),
